@@ -242,8 +242,10 @@ def finalize(rep, seed=0, extra_cov=None):
         "coverage": cov, "assumptions": rep.assumptions,
         "wall_s": round(time.time() - rep.t0, 3), "violations": len(unlisted),
     }
-    os.makedirs(os.path.join(VERIF, "evidence"), exist_ok=True)
-    with open(os.path.join(VERIF, "evidence", f"{rep.prop}.json"), "w") as f:
-        json.dump(ev, f, indent=1)
+    # the evidence file describes /repo: a development run on another tree (check.py --repo <scratch copy>) does not overwrite it
+    if not os.environ.get("VERIF_SKIP_EVIDENCE"):
+        os.makedirs(os.path.join(VERIF, "evidence"), exist_ok=True)
+        with open(os.path.join(VERIF, "evidence", f"{rep.prop}.json"), "w") as f:
+            json.dump(ev, f, indent=1)
 
     return code, lines
